@@ -468,3 +468,8 @@ def cfloat_conv_source_is_double_subnormal(c):
     a = ints(c['args'])[0]
     m = a & ((1 << (n1 - 1)) - 1)
     return e1 == 11 and m != 0 and (m >> (n1 - 1 - e1)) == 0
+
+
+@pred
+def pure_posit8_fromd_via_float(c):
+    return impl_is_zero_or_nar(c) or off_by_one_encoding(c)
